@@ -64,7 +64,11 @@ class CGenerator:
         return arrref + "[" + self.visit(n.subscript) + "]"
 
     def visit_StructRef(self, n: c_ast.StructRef) -> str:
-        sref = self._parenthesize_unless_simple(n.name)
+        # A constant must be parenthesized: '5.x' would lex as a float.
+        sref = self._parenthesize_if(
+            n.name,
+            lambda d: isinstance(d, c_ast.Constant) or not self._is_simple_node(d),
+        )
         return sref + n.type + self.visit(n.field)
 
     def visit_FuncCall(self, n: c_ast.FuncCall) -> str:
